@@ -326,14 +326,22 @@ private theorem protectedThrough_of_marked {a : Arena} (hinv : Inv a) (hp : a.ct
     finalizer, further callbacks of every kind with any mutation, whether or not the pointer is ever
     stored, collection calls of every method including the sweep of this cycle — for as long as the
     arena exists and the cycle has not been completed (no new `'Z'` in the step log): `t` and
-    everything strongly reachable from `t` in the state reached is allocated, undestructed and out
-    of the sweep's reach, and no `dropped` / `freed` event about `t` has been logged.  Also: the
-    arena reports Marking right after the call if `t` was dead. -/
+    everything strongly reachable from `t` is allocated, undestructed and out of the sweep's reach,
+    and no `dropped` / `freed` event about `t` has been logged.  The closure is taken **in the state
+    reached** (`AccessibleC (r.1.run ops).ctx [] [strong t] j`: `j` is `t` or reachable from `t`
+    through `Gc` pointers as the heap is *then* — what the mutator has unlinked from `t` meanwhile is
+    not covered, what it has linked under `t` is).  The first conjunct is `ProtectedThrough r.1 t`
+    written out.  Also: the arena reports Marking right after the call if `t` was dead. -/
 theorem resurrect_then_protected (n : Nat) (pre : List Op) (t : Nat) :
     let a := (Arena.new n).run pre
     let r := a.step (.resurrect (.weak t))
     a.alive = true → r.2 = "some" →
-    ProtectedThrough r.1 t ∧ (isDead a.ctx t → r.1.collectionPhase = "Marking") := by
+    (∀ ops : List Op, (r.1.run ops).alive = true →
+      (∃ new, (r.1.run ops).ctx.steps = new ++ r.1.ctx.steps ∧ 'Z' ∉ new) →
+      (∀ j, AccessibleC (r.1.run ops).ctx [] [Ptr.strong t] j →
+        Safe (r.1.run ops).ctx j ∧ ∃ o, (r.1.run ops).ctx.heap.get j = some o ∧ o.live = true) ∧
+      ∃ evs, (r.1.run ops).ctx.log = evs ++ r.1.ctx.log ∧ Event.dropped t ∉ evs ∧ Event.freed t ∉ evs) ∧
+    (isDead a.ctx t → r.1.collectionPhase = "Marking") := by
   intro a r halive hout
   have h : Inv a := inv_run n pre halive
   obtain ⟨hcb, hh, ⟨o, ho, hl⟩, hctx⟩ := resurrect_weak_some halive t hout
